@@ -72,7 +72,7 @@ func entry(b *strings.Builder, e *yang.Entry, ind string, pos bool) {
 		}
 		fmt.Fprintf(b, "%s  +%s", ind, k)
 		for _, v := range e.Extra[k] {
-			fmt.Fprintf(b, " %s", extra(v))
+			fmt.Fprintf(b, " %s", extra(v, pos))
 		}
 		b.WriteString("\n")
 	}
@@ -105,8 +105,11 @@ func entry(b *strings.Builder, e *yang.Entry, ind string, pos bool) {
 
 // extra renders one element of Entry.Extra (they hold AST nodes; what matters is which
 // statement each one is).
-func extra(v interface{}) string {
+func extra(v interface{}, pos bool) string {
 	if n, ok := v.(yang.Node); ok && n != nil && !reflect.ValueOf(n).IsNil() {
+		if !pos {
+			return fmt.Sprintf("%s:%q", n.Kind(), n.NName())
+		}
 		return fmt.Sprintf("%s:%q@%s", n.Kind(), n.NName(), yang.Source(n))
 	}
 	return fmt.Sprintf("%T", v)
